@@ -8,9 +8,9 @@
    f-string bookkeeping facts the model returns `Err Guard` instead of tokens; the theorem says nothing when
    the model returns an error, and the tok correspondence stream establishes that the model returns exactly
    parso's tokens (never Guard) on every generated input. *)
-From Coq Require Import List NArith Bool.
+From Coq Require Import List NArith Bool Lia.
 Import ListNotations.
-Require Import Regex RegexFacts Tok TokFacts TokTiles Engine Lines Tables Model.
+Require Import Regex RegexFacts Tok TokFacts TokTiles TokShape Engine Lines Tables Model.
 Open Scope N_scope.
 
 Lemma pseudo_shapes_ok : forallb (fun '(v, c) => shape12 (pseudo c)) colls = true.
@@ -44,6 +44,58 @@ Example C09_tile_example :
   | Tok.Ok toks => (8 <=? N.of_nat (length toks)) = true
   | Tok.Err _ => False end.
 Proof. vm_compute. reflexivity. Qed.
+
+(* ---------------- shape of the stream: one end marker, balanced zero-width INDENT / DEDENT ----------------
+   TokShape.tok_shape, for ANY collection, oracles, lines, start line / column and non-empty indentation stack:
+   the stream is body ++ [ENDMARKER] and the depth walk over body (see TokShape.run) starts at
+   (length inds - 1), never goes negative, and ends at 0. *)
+Theorem C09_token_shape_lines : forall v lines inds sl sc first toks,
+  run_tok v lines inds sl sc first = Tok.Ok toks -> inds <> [] ->
+  exists body e, toks = body ++ [e] /\ ty e = ENDMARKER /\ ts e = [] /\ run (depth inds) body = Some O.
+Proof.
+  intros v lines inds sl sc first toks H NE. unfold run_tok in H. destruct (coll_of v) as [c|]; [|discriminate].
+  eapply tok_shape; eassumption.
+Qed.
+Print Assumptions C09_token_shape_lines.
+
+Theorem C09_token_shape : forall v s toks, tokenize_text v s = Tok.Ok toks ->
+  exists body e, toks = body ++ [e] /\ ty e = ENDMARKER /\ ts e = [] /\ run 0 body = Some O.
+Proof. intros v s toks H. eapply C09_token_shape_lines in H; [exact H|discriminate]. Qed.
+
+(* what the walk says, spelled out *)
+Theorem C09_one_endmarker : forall v s toks, tokenize_text v s = Tok.Ok toks ->
+  exists body e, toks = body ++ [e] /\ ty e = ENDMARKER /\ forall t, In t body -> ty t <> ENDMARKER.
+Proof.
+  intros v s toks H. destruct (C09_token_shape _ _ _ H) as (body & e & E & TE & _ & R). exists body, e.
+  split; [exact E|split; [exact TE|]]. intros t I. exact (proj1 (run_tokens _ _ _ _ R I)).
+Qed.
+Theorem C09_indent_dedent_balanced : forall v s toks, tokenize_text v s = Tok.Ok toks ->
+  count is_indent toks = count is_dedent toks /\
+  (forall a b, toks = a ++ b -> (count is_dedent a <= count is_indent a)%nat) /\
+  (forall t, In t toks -> ty t = INDENT \/ ty t = DEDENT -> ts t = [] /\ tpre t = []).
+Proof.
+  intros v s toks H. destruct (C09_token_shape _ _ _ H) as (body & e & E & TE & _ & R). subst toks.
+  assert (CE: forall k, k ENDMARKER = false -> forall l, count k (l ++ [e]) = count k l).
+  { intros k K l. unfold count. rewrite filter_app, app_length. simpl. rewrite TE, K. simpl. lia. }
+  split; [|split].
+  - rewrite !CE by reflexivity. pose proof (run_balance _ _ _ R). lia.
+  - intros a b E.
+    assert (P: exists a', (a = a' \/ a = a' ++ [e]) /\ exists b', body = a' ++ b').
+    { destruct b as [|x b] using rev_ind.
+      - rewrite app_nil_r in E. subst a. exists body. split; [right; reflexivity|exists []; rewrite app_nil_r; reflexivity].
+      - rewrite app_assoc in E. apply app_inj_tail in E as [E _]. exists a. split; [left; reflexivity|exists b; exact E]. }
+    destruct P as (a' & [A|A] & b' & B); subst a body; [|rewrite !CE by reflexivity]; pose proof (run_never_negative _ _ _ _ R); lia.
+  - intros t I TY. apply in_app_or in I as [I|[I|[]]].
+    + exact (proj2 (run_tokens _ _ _ _ R I) TY).
+    + subst t. rewrite TE in TY. destruct TY; discriminate.
+Qed.
+Print Assumptions C09_indent_dedent_balanced.
+
+Example C09_shape_example :
+  match tokenize_text 310 [105;102;32;120;58;10;32;121;10;32;32;122;10] with
+  | Tok.Ok toks => count is_indent toks = 2%nat /\ count is_dedent toks = 2%nat
+  | Tok.Err _ => False end.
+Proof. vm_compute. split; reflexivity. Qed.
 
 (* the supporting regex facts *)
 Theorem C09_match_soundness : forall r i rest cs k o, m r i rest cs k = Some o -> called r i rest cs k o.
